@@ -104,13 +104,15 @@ BLOCKS = ['Input', 'Counter', 'GenT', 'Timer', 'InputExp']
 
 
 def alphabet(kind):
+    # ('nosuch', None): unknown event type, ('put', 'novalue'): missing parameter - both are only
+    # reported to the caller; the block keeps working and keeps saving its state
     if kind == 'Input':
-        return [('put', 1), ('put', 2), ('put', 9), ('put', 'boom')]
+        return [('put', 1), ('put', 2), ('put', 9), ('put', 'boom'), ('nosuch', None), ('put', 'novalue')]
     if kind == 'Counter':
-        return [('inc', None), ('put', 12), ('dec', None), ('put', 13)]
+        return [('inc', None), ('put', 12), ('dec', None), ('put', 13), ('nosuch', None)]
     if kind == 'GenT':
         return [('go', None), ('go', 6), ('back', None), ('tick',), ('to_expiry',), ('bad', 'boom'),
-                ('go', 'hold')]
+                ('go', 'hold'), ('nosuch', None)]
     if kind == 'Timer':
         return [('start', None), ('start', 6), ('stop', None), ('tick',), ('to_expiry',)]
     return [('put', None), ('put', 6), ('tick',), ('to_expiry',)]
@@ -247,7 +249,7 @@ def first_run(cfg):
                 else:
                     data = {}
                     if kind in ('Input', 'Counter'):
-                        if sym[1] is not None:
+                        if sym[1] is not None and sym[1] != 'novalue':
                             data['value'] = sym[1]
                     elif kind == 'InputExp':
                         data['value'] = f"v{n}"
